@@ -102,10 +102,13 @@ def render(d, style="prefix", prefix="xtce", od=False, extra_ns=False, comments=
     body += "</ContainerSet></TelemetryMetaData></SpaceSystem>"
     if boolcase in ("Title", "UPPER"):
         body = re.sub(r'="(true|false)"', lambda m: '="' + (m.group(1).title() if boolcase == "Title" else m.group(1).upper()) + '"', body)
+    elif comments:
+        body = body.replace('="false"', '="0"')         # xs:boolean also spells false as 0 (the loader reads anything but "true" as false)
     if comments:
         # a comment (and whitespace) as first child of every element that has children, and between all siblings
         body = re.sub(r"(<[A-Za-z][^>]*[^/]>)(?=<)", lambda m: m.group(1) + "\n  <!-- c -->\n  ", body)
         body = re.sub(r"(</[A-Za-z][^>]*>|<[A-Za-z][^>]*/>)(?=<)", lambda m: m.group(1) + "\n <!-- s -->\t", body)
+        body = body.replace("<UnitSet/>", "<UnitSet><!-- no unit --></UnitSet>")      # a comment as the only child of an empty element
     xsi = ' xmlns:xsi="http://www.w3.org/2001/XMLSchema-instance" xsi:schemaLocation="http://www.omg.org/space/xtce SpaceSystem.xsd"' if extra_ns else ""
     if style == "prefix":
         body = re.sub(r"<(/?)([A-Za-z])", lambda m: f"<{m.group(1)}{prefix}:{m.group(2)}", body)
